@@ -408,6 +408,18 @@ def canon (form : Form) (kind : Kind) (dim : Nat) (M : QMat.Mat) : GRes :=
       if isDiagonal M && M.all (·.length = dim) then canonDiag form (diagOf M) else canonSparseFull form M
   | _, _ => .raises
 
+/-- exact covariance of the distribution the specification denotes *as the code reads it*: the covariance
+    the branch formed, else the inverse of the canonical precision (certificate `P·C = 1` checked).
+    This is what `Gaussian.compute_cov()` (and `cdf`, which reads it) must return. -/
+def canonCov (c : Canon) : Option QMat.Mat :=
+  match c.C, c.P with
+  | some C, _ => some C
+  | none, some P =>
+      match QMat.inverse P with
+      | some C => if QMat.isInverse P C then some C else none
+      | none => none
+  | none, none => none
+
 /-- solve `A y = b` by elimination on `[A | b]` (untrusted helper; the driver checks `A y = b`) -/
 def solveVec (A : QMat.Mat) (b : List Rat) : Option (List Rat) :=
   let n := A.length
